@@ -12,7 +12,8 @@ RULE = ("seeded sample wrappers (transform wrappers for x / other items, multi-v
         "placed bare / below a subset / below a repeat wrapper / above an identity wrapper, over 3 samples with identical data; "
         "BFS over all access histories of length <= 3 (with global-RNG perturbations in between) on one object and over simulated "
         "workers (fresh copy + own global seed + worker_init_fn); state = (stack, index); oracle: the observation for a state is "
-        "the same along every history and on every worker; different indices give different observations")
+        "the same along every history and on every worker; different indices give different observations; every special stack and "
+        "every leaf transform also over an in-memory dataset that hands out its stored tensors (they must stay what they were)")
 
 N = 3
 SEED = 5
@@ -20,6 +21,8 @@ _SEED_OVERRIDE = [None]
 
 
 _SEED_NUMPY = [False]
+_STORED = [False]  # True: the root dataset keeps its samples in memory and hands out the stored objects themselves
+_ROOTS = []
 
 
 def seed_value(offset=0):
@@ -61,6 +64,18 @@ def root_cls():
 
         def getitem_x(self, idx, ctx=None):
             assert 0 <= idx < N
+            if _STORED[0]:
+                if not hasattr(self, "store"):
+                    self.store = {i: self._fresh_x(i) for i in range(N)}
+                    self.pristine = {i: dig(self._fresh_x(i)) for i in range(N)}
+                    _ROOTS.append(self)
+                return self.store[int(idx)]
+            return self._fresh_x(idx)
+
+        def modified(self):
+            return [i for i in range(N) if dig(self.store[i]) != self.pristine[i]] if hasattr(self, "store") else []
+
+        def _fresh_x(self, idx):
             if self.kind == "T3_distinct":  # for the mix wrapper the partner must be visible in the result
                 return cat.inputs("T3", int(idx))
             return cat.inputs(self.kind, 0)  # identical data for every index
@@ -304,11 +319,17 @@ def explore_stack(make, label, case, p, expect_distinct, maxlen=3, workers=True)
             set_global(1 if perturb else 0)
             ds, idx_map = make()
             p.traces += 1
+            del _ROOTS[:]
             for step, k in enumerate(seq):
                 if perturb:
                     set_global(2 + step)
                 obs = dig(ds[k])
                 ok = record(idx_map[k], obs, dict(history=list(seq[:step + 1]), perturb=perturb)) and ok
+                changed = [(type(r).__name__, r.modified()) for r in _ROOTS if r.modified()]
+                if changed:
+                    # not a violation by itself (the statement is about the returned sample): it becomes one as soon as a
+                    # returned value differs between histories, which the table above decides
+                    p.count("accesses_that_modified_the_in_memory_dataset")
             if not ok:
                 break
         # simulated dataloader workers: fresh identical copy + own global seed + worker_init_fn(rank)
@@ -368,18 +389,19 @@ def task(items):
     for it in items:
         _SEED_OVERRIDE[0] = 0 if it[-1] == "seed0" else None
         _SEED_NUMPY[0] = it[-1] == "npseed"
-        if it[-1] in ("seed0", "npseed"):
+        _STORED[0] = it[-1] == "stored"
+        if it[-1] in ("seed0", "npseed", "stored"):
             it = it[:-1]
-        sfx = "|seed0" if _SEED_OVERRIDE[0] == 0 else ("|numpy_int_seed" if _SEED_NUMPY[0] else "")
+        sfx = "|seed0" if _SEED_OVERRIDE[0] == 0 else ("|numpy_int_seed" if _SEED_NUMPY[0] else ("|in_memory_dataset" if _STORED[0] else ""))
         if it[0] == "spec":
             _, wrapper, placement, tspec = it
             label = f"{wrapper}/{placement}[{tname(tspec)}]{sfx}"
             sched = "cheduled" in tname(tspec)  # inside a worker a scheduled strength depends on progress, by design
             explore_stack(lambda: make_stack(wrapper, placement, tspec), label,
-                          dict(wrapper=wrapper, placement=placement, tspec=tspec, seed0=sfx == "|seed0", npseed=_SEED_NUMPY[0]), p, expect_distinct=_tensor_out(tspec),
+                          dict(wrapper=wrapper, placement=placement, tspec=tspec, seed0=sfx == "|seed0", npseed=_SEED_NUMPY[0], stored=_STORED[0]), p, expect_distinct=_tensor_out(tspec),
                           maxlen=3 if _tensor_out(tspec) else 2, workers=not sched)
         else:
-            explore_stack(lambda: make_special(it[1]), it[1] + sfx, dict(special=it[1], seed0=sfx == "|seed0", npseed=_SEED_NUMPY[0]), p,
+            explore_stack(lambda: make_special(it[1]), it[1] + sfx, dict(special=it[1], seed0=sfx == "|seed0", npseed=_SEED_NUMPY[0], stored=_STORED[0]), p,
                           expect_distinct=it[1] in ("byol_multiview", "other_items") or it[1].startswith("shared_transform"),
                           workers=it[1] != "semseg_scheduled", maxlen=3)
     p.sample(dict(item=[str(x) for x in items[0]], histories="all access sequences of length<=3 x perturbation; workers 1..3"))
@@ -411,6 +433,10 @@ def run(run):
         items.append(("special", sp))
         items.append(("special", sp, "seed0"))  # seed 0 is legal and falsy
         items.append(("special", sp, "npseed"))  # so is a numpy integer
+        items.append(("special", sp, "stored"))  # an in-memory dataset handing out its stored tensors
+    for s in specs:
+        if s in probes or (isinstance(s, tuple) and s[0] == "leaf"):
+            items.append(("spec", "xtransform", "bare", s, "stored"))
     for s in probes:
         for wrapper in WRAPPERS:
             items.append(("spec", wrapper, "bare", s, "seed0"))
@@ -436,6 +462,7 @@ def replay(case):
     cat.discover()
     _SEED_OVERRIDE[0] = 0 if case.get("seed0") else None
     _SEED_NUMPY[0] = bool(case.get("npseed"))
+    _STORED[0] = bool(case.get("stored"))
     if case.get("special"):
         explore_stack(lambda: make_special(case["special"]), case["special"], dict(special=case["special"]), p, False)
     else:
